@@ -421,6 +421,9 @@ def load_known(path=None):
         return json.load(fh)
 
 
+LAST_REPORT = None
+
+
 class Report:
     """Collects rule instances and violations of one property run and writes the evidence."""
 
@@ -436,6 +439,7 @@ class Report:
         self.notes = []
         self.extra = {}
         self.floors = {}
+        self.failed_floors = []
         self.t0 = time.time()
 
     # -- recording
@@ -464,11 +468,14 @@ class Report:
         """Guard against rules that silently match nothing."""
         self.floors[name] = {"measured": measured, "minimum": minimum}
         if measured < minimum:
-            raise AnalysisError(
+            # deferred: a violation found elsewhere is reported first (see finish)
+            self.failed_floors.append(
                 f"instance floor not met for {name}: measured {measured} < {minimum} confirmed by hand")
 
     # -- finishing
     def finish(self, samples=None, evidence_dir=None, quiet=False):
+        global LAST_REPORT
+        LAST_REPORT = self
         known = load_known()
         kf = {}
         for f in known.get("findings", []):
@@ -495,6 +502,8 @@ class Report:
             print(f"  {v['what']}")
             for w in v["witness"][:12]:
                 print(f"    witness: {w}")
+        if self.failed_floors and not new:
+            raise AnalysisError("; ".join(self.failed_floors))
         stale = [k for k in kf if k not in {v["key"] for v in self.violations}]
         for k in stale:
             self.notes.append(f"known finding {k} no longer reproduces on this tree")
